@@ -16,7 +16,9 @@ RULE = ("every case = (reads file, haplotag list file, option set) run through t
         "reads drawn from a pool of 1-6 names, so duplicate names are the rule; exact duplicate records; lists with "
         "2-5 columns, with/without header, plain/gz, names absent from the reads, `none` lines, repeated names, "
         "1-3 phase sets on 1-2 chromosomes); (b) exhaustive: all read sequences of length <= L over two names x all "
-        "lists assigning absent/none/H1/H2 to each name x discard x add-untagged x untagged-output; (c) FASTQ reads "
+        "lists assigning absent/none/H1/H2 to each name x discard x add-untagged x untagged-output (this stream calls "
+        "the CLI entry point whatshap.__main__.main(argv) many times per interpreter process, all others start one "
+        "`python -m whatshap split` process per case); (c) FASTQ reads "
         "with empty sequence; (d) inputs the code rejects (unknown haplotype name, empty list file, "
         "only-largest-block with a 2-column list, discard with no listed name), compared on the error class. "
         "A case is non-trivial if at least two reads are written and at least one listed, tagged name occurs among "
@@ -64,12 +66,12 @@ SIG = {1: "split:early-exit-duplicate-names", 2: "split:list-duplicate-name-asse
 
 
 # --------------------------------------------------------------------------------- evaluation
-def evaluate(ctx, cases, label, shard=150):
+def evaluate(ctx, cases, label, shard=150, batch=False):
     """run the CLI on all cases, judge them in Coq; returns list of (case, obs, verdict) with
     verdict = dict(valid, l1, routing, partition, hist, matching, blamed) or None if not judged"""
     root = workdir(ctx, "C14-" + label)
     t0 = time.time()
-    obs = sc.run_cases(ctx, cases, root)
+    obs = (sc.run_cases_batch if batch else sc.run_cases)(ctx, cases, root)
     shutil.rmtree(root, ignore_errors=True)
     ctx.extra["cli_seconds"] = round(ctx.extra.get("cli_seconds", 0) + time.time() - t0, 1)
     t0 = time.time()
@@ -309,7 +311,7 @@ def run(ctx):
 
     # (b) exhaustive small space
     ex = list(exhaustive_cases(ctx.n(2, 4)))
-    res2 = evaluate(ctx, ex, "exh")
+    res2 = evaluate(ctx, ex, "exh", batch=True)
     ctx.extra["exhaustive_cases"] = len(ex)
     ctx.exhaustive = True
     by_sig2, l2_bad2, matchsets2 = process(ctx, res2, "exhaustive")
